@@ -27,11 +27,13 @@ import (
 	"github.com/andybalholm/brotli"
 	"github.com/klauspost/compress/zstd"
 	"github.com/valyala/bytebufferpool"
+	"github.com/valyala/fasthttp/stackless"
 	"pgregory.net/rapid"
 )
 
 const (
-	vpC22KeyQueue = "C22/stackless-queue-overflow"
+	vpC22KeyWriter = "C22/stackless-writer-overflow"
+	vpC22KeyQueue  = "C22/stackless-queue-overflow"
 	vpC22KeyZstd0 = "C22/zstd-level-0-panics"
 )
 
@@ -271,6 +273,7 @@ func vpC22Body(kind, size int, seed uint64) []byte {
 }
 
 type vpC22Call struct {
+	c     *vpC22Codec // nil: the burst's codec
 	in    []byte
 	level int
 	via   int // 0 Append*BytesLevel(nil), 1 Append*BytesLevel(prefix), 2 Write*Level(*bytes.Buffer), 3 Write*Level(*bytebufferpool.ByteBuffer)
@@ -280,6 +283,13 @@ type vpC22Call struct {
 }
 
 var vpC22Prefix = []byte("PFX!")
+
+func vpC22CodecOf(c *vpC22Codec, call *vpC22Call) *vpC22Codec {
+	if call.c != nil {
+		return call.c
+	}
+	return c
+}
 
 func (c *vpC22Codec) run(call *vpC22Call) {
 	switch call.via {
@@ -345,14 +355,14 @@ func vpC22Burst(c *vpC22Codec, calls []*vpC22Call) (bad int, first string) {
 			defer done.Done()
 			ready.Done()
 			<-start
-			c.run(call)
+			vpC22CodecOf(c, call).runAny(call)
 		}(call)
 	}
 	ready.Wait()
 	close(start)
 	done.Wait()
 	for i, call := range calls {
-		if msg := c.verify(call); msg != "" {
+		if msg := vpC22CodecOf(c, call).verifyAny(call); msg != "" {
 			bad++
 			if first == "" {
 				first = fmt.Sprintf("call #%d of %d (level %d, via %d, %d input bytes, %d output bytes): %s", i, len(calls), call.level, call.via, len(call.in), len(call.out), msg)
@@ -400,7 +410,7 @@ func vpC22QueueProbe(c *vpC22Codec, pool [][]byte, extra int) (bad, total int, f
 	for i := 0; i < procs; i++ {
 		select {
 		case <-entered:
-		case <-time.After(120 * time.Second):
+		case <-time.After(30 * time.Second):
 			close(release)
 			stallers.Wait()
 			return 0, 0, "", "could not occupy all stackless workers (worker count differs from GOMAXPROCS?)"
@@ -426,7 +436,7 @@ func vpC22QueueProbe(c *vpC22Codec, pool [][]byte, extra int) (bad, total int, f
 	}
 	// `extra` calls cannot be queued; whatever the implementation does with them (inline
 	// compression, or today: nothing) they return while the workers are still stalled.
-	deadline := time.After(120 * time.Second)
+	deadline := time.After(30 * time.Second)
 	got := 0
 wait:
 	for got < extra {
@@ -566,4 +576,188 @@ func vpC22ProbeSeen(present bool, detail string) {
 		d += s
 	}
 	vpProbe(vpC22KeyQueue, vpC22ProbePresent, d)
+}
+
+
+// ---------------------------------------------------------------------------------------------
+// generic-writer path: Write*Level(w) for a w that is not one of the three non-blocking buffer types goes
+// through stackless.Writer, whose Write/Flush/Close/Reset operations share ONE queue (all codecs, and the
+// compressed body streams of CompressHandler*).
+
+type vpC22BlockZW struct {
+	entered chan<- struct{}
+	release <-chan struct{}
+}
+
+func (z *vpC22BlockZW) Write(p []byte) (int, error) {
+	z.entered <- struct{}{}
+	<-z.release
+	return len(p), nil
+}
+func (z *vpC22BlockZW) Flush() error    { return nil }
+func (z *vpC22BlockZW) Close() error    { return nil }
+func (z *vpC22BlockZW) Reset(io.Writer) {}
+
+// vpC22WriterProbe: deterministic probe of "the shared stackless.Writer queue is full while a Write*Level call
+// is between its Write and its Close". The victim performs exactly the three steps of WriteGzipLevel's generic
+// branch (acquire, Write, release); between Write and release the queue is filled: all workers are parked in
+// a stackless writer whose Write blocks (public stackless.NewWriter API) and capacity+extra public
+// WriteDeflateLevel calls are started, `extra` of which cannot be queued.
+func vpC22WriterProbe(pool [][]byte, extra int) (bad, total int, first, note string) {
+	procs := runtime.GOMAXPROCS(-1)
+	capacity := procs * 2048
+	codecs := vpC22Codecs()
+	gz, fl := codecs[0], codecs[1]
+	warm := &vpC22Call{in: pool[0], level: 1, via: 4}
+	gz.runAny(warm)
+	const level = 1
+	victim := &vpC22Call{in: pool[1%len(pool)], level: level, via: 4}
+	var rec vpC22RecWriter
+	sw := acquireStacklessGzipWriter(&rec, level)
+	victim.wn, victim.werr = sw.Write(victim.in)
+
+	entered := make(chan struct{}, procs)
+	release := make(chan struct{})
+	var stallers sync.WaitGroup
+	for i := 0; i < procs; i++ {
+		stallers.Add(1)
+		go func() {
+			defer stallers.Done()
+			w := stackless.NewWriter(io.Discard, func(io.Writer) stackless.Writer {
+				return &vpC22BlockZW{entered: entered, release: release}
+			})
+			w.Write([]byte("x")) //nolint:errcheck
+		}()
+	}
+	for i := 0; i < procs; i++ {
+		select {
+		case <-entered:
+		case <-time.After(30 * time.Second):
+			close(release)
+			stallers.Wait()
+			releaseStacklessGzipWriter(sw, level)
+			return 0, 0, "", "could not occupy all stackless writer workers"
+		}
+	}
+	n := capacity + extra
+	calls := vpC22MakeCalls(fl, n, pool, []int{0}, 77)
+	retCh := make(chan struct{}, n)
+	var done sync.WaitGroup
+	done.Add(n)
+	for _, call := range calls {
+		call.via = 4
+		go func(call *vpC22Call) {
+			defer done.Done()
+			fl.runAny(call)
+			retCh <- struct{}{}
+		}(call)
+	}
+	deadline := time.After(30 * time.Second)
+	got := 0
+wait:
+	for got < extra {
+		select {
+		case <-retCh:
+			got++
+		case <-deadline:
+			note = fmt.Sprintf("only %d of %d surplus calls returned while the workers were stalled (surplus calls block instead)", got, extra)
+			break wait
+		}
+	}
+	// the queue is full now: the victim's Close cannot be queued
+	releaseStacklessGzipWriter(sw, level)
+	victim.out = rec.b
+	close(release)
+	stallers.Wait()
+	done.Wait()
+	if msg := gz.verifyAny(victim); msg != "" {
+		bad++
+		first = fmt.Sprintf("victim WriteGzipLevel(w, %d bytes, %d): Write returned (%d, %v), %d bytes reached w: %s", len(victim.in), level, victim.wn, victim.werr, len(victim.out), msg)
+	}
+	silent, reported := 0, 0
+	for i, call := range calls {
+		if msg := fl.verifyAny(call); msg != "" {
+			bad++
+			if call.werr != nil {
+				reported++
+			} else {
+				silent++
+			}
+			if first == "" {
+				first = fmt.Sprintf("call #%d WriteDeflateLevel(w, %d bytes, 0) = (%d, %v), %d bytes reached w: %s", i, len(call.in), call.wn, call.werr, len(call.out), msg)
+			}
+		}
+	}
+	if bad > 0 {
+		first += fmt.Sprintf(" [surplus calls: %d returned an error, %d returned nil with undecodable output]", reported, silent)
+	}
+	return bad, n + 1, first, note
+}
+
+// TestVP_C22_BurstWriter: N simultaneous Write*Level calls on a generic io.Writer (gzip and deflate at the
+// cheap levels so that ten thousand live encoders stay within a few hundred MiB, with a few brotli/zstd
+// calls mixed in - the queue is shared); every call must return (len(p), nil) and its output must decode.
+func TestVP_C22_BurstWriter(t *testing.T) {
+	if runtime.GOMAXPROCS(-1) > 2 {
+		defer runtime.GOMAXPROCS(runtime.GOMAXPROCS(2))
+	}
+	vpC22Zstd0Probe()
+	procs := runtime.GOMAXPROCS(-1)
+	capacity := procs * 2048
+	sizes := []int{1, 64, capacity - 96, capacity + capacity/2 - 144}
+	if vpThorough() {
+		sizes = append(sizes, 10000, 20000)
+	}
+	rapid.Check(t, func(t *rapid.T) {
+		pool := vpC22Pool(t, 48, 300, 2000)
+		salt := rapid.Uint64Range(0, 1<<40).Draw(t, "salt")
+		codecs := vpC22Codecs()
+		key := vpC22KeyWriter
+		bad, total, first, note := vpC22WriterProbe(pool, 64)
+		if note != "" {
+			vpNote("C22 writer-queue probe: %s", note)
+		}
+		vpExtra("writer_probe_bad_results", int64(bad))
+		vpExtra("writer_probe_calls", int64(total))
+		if bad > 0 {
+			vpProbe(key, true, fmt.Sprintf("%d of %d Write*Level(generic writer) calls did not round-trip with the shared stackless.Writer queue full (GOMAXPROCS=%d, capacity %d); first: %s", bad, total, procs, capacity, first))
+			if !vpKnownOpen(key) {
+				t.Fatalf("stackless writer queue overflow: %d of %d simultaneous Write*Level(generic writer) calls did not round-trip; first: %s", bad, total, first)
+			}
+		} else {
+			vpProbe(key, false, "all Write*Level(generic writer) calls round-trip with the shared stackless.Writer queue full")
+		}
+		for _, n := range sizes {
+			over := n > capacity
+			calls := vpC22MakeCalls(codecs[0], n, pool, []int{-2, 0, -2, 0, 1}, salt)
+			for i, call := range calls {
+				call.via = 4
+				switch {
+				case i%2 == 1:
+					call.c = codecs[1]
+				case i%128 == 6:
+					call.c, call.level = codecs[2], int(salt%7)-1 // brotli -1..5
+				case i%128 == 8:
+					call.c, call.level = codecs[3], 1+int(salt%2) // zstd 1..2
+				}
+			}
+			if over && vpKnownOpen(key) {
+				vpExclude(key)
+				if n > capacity*2 && !vpThorough() {
+					continue
+				}
+				bad, _ := vpC22Burst(codecs[0], calls)
+				vpExtra("observed_only_overcapacity_writer_burst_bad_results", int64(bad))
+				vpExtra("observed_only_overcapacity_writer_burst_calls", int64(n))
+				continue
+			}
+			bad, first := vpC22Burst(codecs[0], calls)
+			vpCase(fmt.Sprintf("burst-writer/N=%d", n), n >= 64, fmt.Sprintf("w/%d/%d", n, salt), func() string {
+				return fmt.Sprintf("%d simultaneous Write{Gzip,Deflate,Brotli,Zstd}Level calls on a generic io.Writer, bodies 300-2000 B, salt %d", n, salt)
+			})
+			if bad > 0 {
+				t.Fatalf("%d of %d simultaneous Write*Level(generic writer) calls did not round-trip; first: %s", bad, n, first)
+			}
+		}
+	})
 }
